@@ -320,6 +320,41 @@ def R4_estimate(run):
     divs = [st for bb in fb.blocks for st in bb["s"] if st["k"] == "=" and st["rv"].get("bin") == "Div"]
     adds = [st for bb in fb.blocks for st in bb["s"] if st["k"] == "=" and st["rv"].get("bin") in ("Add", "AddWithOverflow")]
     run.check("R4", "floor-b", len(divs) == 1 and not adds, "est_liquidity_for_token_b must be a single truncating division", loc=fb.loc(), detail="(amount << 64) / diff")
+    # the formulas themselves: one truncation at the very end, after every multiplication (an early shift loses bits and the result is no longer the largest L that fits)
+    def ordered(t, i):
+        t = strip(t)
+        return t[0] == "field" and t[2] == str(i) and is_call(t[1], "increasing_price_order")
+
+    def diff(t):
+        t = strip(t)
+        return t[0] == "bin" and t[1].startswith("Sub") and ordered(t[2], 1) and ordered(t[3], 0)
+    ra = [strip(x) for bi, bb in enumerate(fa.blocks) if bb["t"]["k"] == "ret" for x in leaves(pva.local(0, bi, len(bb["s"])))]
+    ok = len(ra) == 1 and is_call(ra[0], "try_into_u128")
+    if ok:
+        q = strip(ra[0][2][0])
+        ok = q[0] == "field" and q[2] == "0" and is_call(q[1], "U256Muldiv::div")
+        if ok:
+            d = strip(q[1])
+            num, den = strip(d[2][0]), d[2][1]
+            ok = diff(den) and is_call(num, "shift_word_right")
+            if ok:
+                m2 = strip(num[2][0])
+                ok = m2[0] == "call" and m2[1].endswith("U256Muldiv::mul") and is_param(m2[2][1], "token_amount_a") and is_call(m2[2][0], "mul_u256")
+                if ok:
+                    m1 = strip(m2[2][0])
+                    ok = {0, 1} == {i for i in (0, 1) for x in m1[2] if ordered(x, i)}
+    run.check("R4", "formula-a", ok, "est_liquidity_for_token_a is not ((upper * lower * amount) >> 64) / (upper - lower) with the shift after both multiplications: %s" % [sh(r, 160) for r in ra], loc=fa.loc(),
+              detail="floor(((upper * lower * amount) >> 64) / (upper - lower))")
+    pvb = prov_of(fb)
+    rb = [strip(x) for bi, bb in enumerate(fb.blocks) if bb["t"]["k"] == "ret" for x in leaves(pvb.local(0, bi, len(bb["s"])))]
+    ok = len(rb) == 1 and rb[0][0] == "agg" and rb[0][2] == "Ok"
+    if ok:
+        v = strip(dict(rb[0][3])["0"])
+        ok = v[0] == "bin" and v[1] == "Div" and diff(v[3])
+        if ok:
+            n_ = strip(v[2])
+            ok = n_[0] == "bin" and n_[1] in ("Shl", "ShlUnchecked") and const_val(n_[3]) == 64 and is_param(n_[2], "token_amount_b")
+    run.check("R4", "formula-b", ok, "est_liquidity_for_token_b is not (amount << 64) / (upper - lower): %s" % [sh(r, 120) for r in rb], loc=fb.loc(), detail="floor((amount << 64) / (upper - lower))")
 
 
 RULES = [R1_case_split, R1b_convert, R2_handler_polarity, R3_caller_limits, R4_estimate]
